@@ -25,4 +25,4 @@ prop('C14', ['R-READONLY', 'R-WRITE-API'],
      'nothing beyond A1-A2')
 
 
-prop('C16', ['R-FRESH','R-DIRTY-WRITTEN','R-NULL-HEAD','R-CRAWLED','R-NONE-CHECK','R-TOKEN-PAIR','R-CHUNK-LAST'], 'tmp', 'tmp', 'tmp')
+prop('C16', ['R-FRESH','R-DIRTY-WRITTEN','R-NULL-HEAD','R-CRAWLED','R-NONE-CHECK','R-TOKEN-PAIR','R-CHUNK-LAST','R-ACCESSOR-TABLE','R-GEOMETRY','R-TAIL-PROTOCOL','R-STORAGE-IFACE','R-VARIATIONS'], 'tmp', 'tmp', 'tmp')
